@@ -15,15 +15,20 @@ import re
 from checklib import sh, parse_kv_line, match_fp, REPO
 
 
-def gate_variant():
-    """Source anchor: does ts_parser__reuse_node contain the column/range repair
-    (fixes/C01-column-token-range-change.diff)?  Selects the variant of the Lean port."""
+def gate_variant(ops_path):
+    """The variant of the Lean port (with / without the column-range repair 835fde5) is chosen by the
+    explorer's BEHAVIOURAL probe of the real parser (`variant colfix N` line at the top of the ops
+    file), not by looking at the source text."""
     try:
-        src = open(os.path.join(REPO, "lib", "src", "parser.c")).read()
+        with open(ops_path) as f:
+            for line in f:
+                if line.startswith("variant colfix "):
+                    return int(line.split()[2])
+                if line.startswith("case "):
+                    break
     except OSError:
-        return 0
-    m = re.search(r"static Subtree ts_parser__reuse_node\(.*?\n}\n", src, re.S)
-    return 1 if m and "ts_subtree_depends_on_column(result)" in m.group(0) else 0
+        pass
+    return 0
 
 
 def has_empty_range(spec):
@@ -112,9 +117,8 @@ def run_pipeline(ctx, explorer, cunit, driver, args, tag):
         if line.startswith("spec "):
             _, cid, rest = line.rstrip("\n").split(" ", 2)
             specs[cid] = rest
-    var = os.path.join(ctx.workdir, "variant.txt")
-    open(var, "w").write("variant colfix %d\n" % gate_variant())
-    rc, out = sh("cat %s %s %s | %s" % (var, tables, ops, driver), timeout=3000)
+    ctx.gate_variant = gate_variant(ops)
+    rc, out = sh("cat %s %s | %s" % (tables, ops, driver), timeout=3000)
     lines = [l for l in out.split("\n") if l.strip()]
     return specs, lines, msg
 
@@ -309,7 +313,7 @@ def run(ctx):
         # generator quality gate: the run must exercise reuse and error-free comparisons
         ctx.oblige("run:coverage-floor", evals >= 1000 and tot["clean"] * 5 >= evals and tot["reused_inner"] >= evals // 2,
                    "evals=%d clean=%d reused_inner=%d" % (evals, tot["clean"], tot["reused_inner"]))
-    ctx.coverage["gate_variant"] = "with column/range repair" if gate_variant() else "pinned (no column/range test)"
+    ctx.coverage["gate_variant"] = ("with column/range repair (835fde5)" if getattr(ctx, "gate_variant", 0) else "without the column/range repair") + " - detected by probing the real parser on the distinguishing input"
     ctx.coverage.update({
         "evaluations": evals, "distinct_nontrivial": len(distinct),
         "rule": "one evaluation = one step of an edit history: Tree::edit on the current tree, incremental parse with it (logger on) and "
